@@ -74,6 +74,7 @@ pub const K_SPAWN: u64 = 3;
 pub const K_EXTRA: u64 = 4; // reset_remove laws, validate_merge, serde, pure-function probes
 pub const K_RAW: u64 = 5; // malformed stream: arbitrary op
 pub const K_MISUSE: u64 = 6; // edit with another replica's actor
+pub const K_LAWS: u64 = 7; // merge laws on three replica states
 
 /// What every replicated type under test provides.
 pub trait Sut: Sized + Clone {
@@ -86,7 +87,14 @@ pub trait Sut: Sized + Clone {
     /// an arbitrary (possibly ill-formed) op
     fn raw(a: &mut Args) -> Self::Op;
     fn apply_logged(&mut self, op: &Self::Op, t: &mut Out);
+    /// apply without logging (used to rebuild the canonical state of a knowledge set)
+    fn apply_quiet(&mut self, op: &Self::Op);
+    /// structural equality as the crate defines it (==)
+    fn same(&self, o: &Self) -> bool;
+    /// canonical rendering of everything the read entry points return (values and contexts)
+    fn reads_sx(&self) -> String;
     fn merge_logged(&mut self, o: &Self, t: &mut Out);
+    fn merge_quiet(&mut self, o: &Self);
     /// log every read entry point
     fn reads(&self, a: &mut Args, t: &mut Out);
     /// reset_remove laws, validate_merge, serde round trip, ...
@@ -133,6 +141,7 @@ fn run_case<S: Sut>(id: &str, disc: u64, cmds: &[Vec<u64>], t: &mut Out) {
                     r as u64
                 };
                 let st = reps[r].clone();
+                t.line(&format!("(pre edit {} {})", r, actor));
                 if let Some(op) = st.edit(actor, &mut a, t) {
                     let idx = log.len();
                     let deps = know[r].clone();
@@ -159,9 +168,14 @@ fn run_case<S: Sut>(id: &str, disc: u64, cmds: &[Vec<u64>], t: &mut Out) {
                     if !cands.is_empty() {
                         let i = cands[a.below(cands.len() as u64) as usize];
                         let op = log[i].op.clone();
+                        t.line(&format!("(pre deliver {} {} {})", r, i, want_dup as u8));
+                        let before = reps[r].clone();
                         reps[r].apply_logged(&op, t);
                         know[r].insert(i);
                         t.line(&format!("(ev deliver {} {})", r, i));
+                        if want_dup {
+                            t.line(&format!("(law C09 dup {} {} {} {})", before.same(&reps[r]), before.reads_sx() == reps[r].reads_sx(), before.sx(), reps[r].sx()));
+                        }
                     }
                 }
             }
@@ -169,10 +183,16 @@ fn run_case<S: Sut>(id: &str, disc: u64, cmds: &[Vec<u64>], t: &mut Out) {
                 if S::HAS_MERGE {
                     let r2 = (a.next() as usize) % reps.len();
                     let o = reps[r2].clone();
+                    t.line(&format!("(pre merge {} {})", r, r2));
+                    let before = reps[r].clone();
+                    let stale = know[r2].is_subset(&know[r]);
                     reps[r].merge_logged(&o, t);
                     let k2 = know[r2].clone();
                     know[r].extend(k2);
                     t.line(&format!("(ev merge {} {})", r, r2));
+                    if stale {
+                        t.line(&format!("(law C09 stale {} {} {} {})", before.same(&reps[r]), before.reads_sx() == reps[r].reads_sx(), before.sx(), reps[r].sx()));
+                    }
                 }
             }
             K_SPAWN => {
@@ -193,6 +213,36 @@ fn run_case<S: Sut>(id: &str, disc: u64, cmds: &[Vec<u64>], t: &mut Out) {
                 let o = reps[r2].clone();
                 reps[r].extra(&o, &mut a, t);
             }
+            K_LAWS => {
+                if S::HAS_MERGE {
+                    let r2 = (a.next() as usize) % reps.len();
+                    let r3 = (a.next() as usize) % reps.len();
+                    let (x, y, z) = (reps[r].clone(), reps[r2].clone(), reps[r3].clone());
+                    let mut xy = x.clone();
+                    xy.merge_quiet(&y);
+                    let mut yx = y.clone();
+                    yx.merge_quiet(&x);
+                    t.line(&format!("(law C02 comm {} {} {} {})", xy.same(&yx), xy.reads_sx() == yx.reads_sx(), xy.sx(), yx.sx()));
+                    let mut xy_z = xy.clone();
+                    xy_z.merge_quiet(&z);
+                    let mut yz = y.clone();
+                    yz.merge_quiet(&z);
+                    let mut x_yz = x.clone();
+                    x_yz.merge_quiet(&yz);
+                    t.line(&format!("(law C02 assoc {} {} {} {})", xy_z.same(&x_yz), xy_z.reads_sx() == x_yz.reads_sx(), xy_z.sx(), x_yz.sx()));
+                    let mut xx = x.clone();
+                    xx.merge_quiet(&x);
+                    t.line(&format!("(law C02 idem {} {} {} {})", xx.same(&x), xx.reads_sx() == x.reads_sx(), xx.sx(), x.sx()));
+                    // hybrid: merge vs delivering the union of the ops
+                    let mut ku = know[r].clone();
+                    ku.extend(know[r2].iter().cloned());
+                    let mut rebuilt = S::new();
+                    for i in ku.iter() {
+                        rebuilt.apply_quiet(&log[*i].op);
+                    }
+                    t.line(&format!("(law C03 hybrid {} {} {} {})", xy.same(&rebuilt), xy.reads_sx() == rebuilt.reads_sx(), xy.sx(), rebuilt.sx()));
+                }
+            }
             K_RAW => {
                 tainted = true;
                 t.line("(taint raw)");
@@ -202,7 +252,6 @@ fn run_case<S: Sut>(id: &str, disc: u64, cmds: &[Vec<u64>], t: &mut Out) {
             }
             _ => {}
         }
-        let _ = tainted;
         let mut ra = Args { v: &c[2..], i: 3 };
         reps[r].reads(&mut ra, t);
         t.line(&format!(
@@ -211,6 +260,20 @@ fn run_case<S: Sut>(id: &str, disc: u64, cmds: &[Vec<u64>], t: &mut Out) {
             know[r].iter().map(|d| format!(" {}", d)).collect::<String>(),
             reps[r].sx()
         ));
+        if !tainted {
+            // the canonical state of this knowledge set: its ops delivered in causal (generation) order
+            let mut canon = S::new();
+            for i in know[r].iter() {
+                canon.apply_quiet(&log[*i].op);
+            }
+            t.line(&format!(
+                "(canon {} {} {} {})",
+                r,
+                canon.same(&reps[r]),
+                canon.reads_sx() == reps[r].reads_sx(),
+                canon.sx()
+            ));
+        }
     }
     t.line("(endcase)");
 }
@@ -250,8 +313,9 @@ fn gen_script(ty: &str, seed: u64, cases: u64, len: u64, stream: &str) {
                 _ => match k {
                     0..=39 => K_EDIT,
                     40..=64 => K_DELIVER,
-                    65..=79 => K_MERGE,
-                    80..=84 => K_SPAWN,
+                    65..=77 => K_MERGE,
+                    78..=82 => K_SPAWN,
+                    83..=89 => K_LAWS,
                     _ => K_EXTRA,
                 },
             };
